@@ -17,7 +17,7 @@ RULE = ("(a) every generated derivation (full header/body model) rendered with >
 ASSUMPTIONS = ["reference grammar and lexer in vf/refparse.py (cross-checked on every positive: must accept with the model's tree)",
                "semantic rejections raised inside the parser (literal register size <= 0) and unlisted constructs (branch/case, "
                "'0101' literals, import..as) are outside the grammar clause and not judged"]
-TIERS = {"quick": {"shards": 8, "budget_s": 90}, "thorough": {"shards": 16, "budget_s": 480}}
+TIERS = {"quick": {"shards": 8, "budget_s": 180}, "thorough": {"shards": 16, "budget_s": 480}}
 REQUIRE = {"entry-points-compared": 2000, "illegal-character-texts-judged": 1500, "mutation:lookalike-digit": 200, "mutation:same-kind-nesting": 300, "mutation:refused-literal": 30, "mutation:exotic-character": 500,
            "shards-reducing-every-production-of-the-listed-grammar": 1, "layouts-checked": 2000, "header-only-parses-compared": 2000, "near-misses-with-multiline-block-comment": 3000, "near-misses-judged": 5000, "both-reject:position-checked": 2000,
            "layout:multiple-block-comments": 100, "layout:multiline-block-comment": 50, "layout:line-comment": 200,
